@@ -1,5 +1,5 @@
 // Kani obligations for src/dir.rs: name validation, 8.3 alias generation, long-name slot generation/assembly.
-// @needs fs,boot_sector
+// @needs fs,boot_sector,dir_entry
 #![allow(dead_code, unused_imports, unused_variables, unused_mut)]
 use super::*;
 use crate::verif_common::*;
@@ -702,6 +702,118 @@ fn eq_name_ascii() {
         _ => eq_name_case(2, 3),
     }
     kani::cover!(sel == 2);
+}
+
+// ---- C17: accessors of a returned entry are total on arbitrary slot contents ----
+
+/// an entry as the directory iterator builds it: ANY 32-byte short slot (every name byte, attribute bit, stamp
+/// field, size and cluster word symbolic), its decoded short name, and a long name of lfn_len arbitrary units
+fn any_entry_accessors(lfn_len: usize) {
+    let fs = crate::fs::verif_kani::mk_fs_plain(
+        NdDev::read_only(),
+        crate::fs::verif_kani::bpb_fat16(),
+        crate::fs::FsStatusFlags::decode(0),
+        crate::fs::verif_kani::opts(false, SymTime::fixed()),
+    );
+    let data = crate::dir_entry::verif_kani::any_sfn_data();
+    let raw: [u8; 11] = *data.name();
+    let size_raw = crate::dir_entry::verif_kani::d_size_raw(&data);
+    let attrs_raw = crate::dir_entry::verif_kani::d_attrs(&data);
+    let want_created = crate::dir_entry::verif_kani::d_created(&data);
+    let want_modified = crate::dir_entry::verif_kani::d_modified(&data);
+    let want_accessed = crate::dir_entry::verif_kani::d_accessed(&data);
+    let units: [u16; 2] = kani::any();
+    let e = DirEntry {
+        short_name: ShortName::new(&raw),
+        data,
+        lfn_utf16: LfnBuffer::from_ucs2_units(units[..lfn_len].iter().copied()),
+        entry_pos: kani::any(),
+        offset_range: (kani::any(), kani::any()),
+        fs: &fs,
+    };
+    // none of these may panic, whatever the slot holds
+    let a = e.attributes();
+    assert!(a.bits() == attrs_raw);
+    let d = e.is_dir();
+    let f = e.is_file();
+    assert!(d == (attrs_raw & 0x10 != 0));
+    assert!(f != d);
+    // len reports the stored size field, widened, for files and directories alike
+    assert!(e.len() == size_raw as u64);
+    assert!(e.created() == want_created);
+    assert!(e.modified() == want_modified);
+    assert!(e.accessed() == want_accessed);
+    let sb = e.short_file_name_as_bytes();
+    assert!(sb.len() <= 12);
+    let lu = e.long_file_name_as_ucs2_units();
+    match lu {
+        None => assert!(lfn_len == 0),
+        Some(u) => {
+            assert!(lfn_len == 2 && u.len() == 2 && u.len() <= 255);
+            assert!(u[0] == units[0] && u[1] == units[1]);
+        }
+    }
+    kani::cover!(d && size_raw == u32::MAX);
+    kani::cover!(f && raw[0] == 0x05);
+    core::mem::forget(e);
+    core::mem::forget(fs);
+}
+
+// @obl props=C17 tier=quick fns=DirEntry::attributes,DirEntry::is_dir,DirEntry::is_file,DirEntry::len,DirEntry::created,DirEntry::modified,DirEntry::accessed,DirEntry::short_file_name_as_bytes,DirEntry::long_file_name_as_ucs2_units
+// @desc forall 32-byte short slots (name bytes, all 8 attribute bits, out-of-range date/time fields, size, cluster words: 2^256 contents) and entry positions: every non-allocating accessor of the returned DirEntry returns without panic or overflow; attributes = the stored byte, is_dir = bit 0x10 and is_file = its negation, len = the stored size widened, the three stamps = the decode of the stored fields (total by time::decode_total), the short name is at most 12 bytes, the long name is None iff no long-name units were collected and otherwise exactly those units (unpaired surrogates included)
+#[kani::proof]
+#[kani::unwind(13)]
+fn entry_accessors_total() {
+    if kani::any() {
+        any_entry_accessors(0);
+    } else {
+        any_entry_accessors(2);
+    }
+}
+
+// (not registered as an obligation: CBMC did not finish within 600 s - String building over a symbolic short name; kept for reference)
+// obl-disabled props=C17 fns=DirEntry::file_name,DirEntry::short_file_name,ShortName::to_string,DirFileEntryData::lowercase_name
+// @bound bounded: long name absent or 2 arbitrary UTF-16 units (lone surrogates included); the short slot is fully symbolic
+// @desc forall 32-byte short slots: file_name() and short_file_name() return without panic; the string has at most 12 characters when it comes from the short name (8 + dot + 3) and at most 2 characters when it comes from a 2-unit long name (a lone surrogate is replaced, never dropped or a panic)
+#[kani::proof]
+#[kani::unwind(14)]
+fn entry_string_accessors_total() {
+    let with_lfn: bool = kani::any();
+    let fs = crate::fs::verif_kani::mk_fs_plain(
+        NdDev::read_only(),
+        crate::fs::verif_kani::bpb_fat16(),
+        crate::fs::FsStatusFlags::decode(0),
+        crate::fs::verif_kani::opts(false, SymTime::fixed()),
+    );
+    let data = crate::dir_entry::verif_kani::any_sfn_data();
+    let raw: [u8; 11] = *data.name();
+    let units: [u16; 2] = kani::any();
+    let n = if with_lfn { 2 } else { 0 };
+    let e = DirEntry {
+        short_name: ShortName::new(&raw),
+        data,
+        lfn_utf16: LfnBuffer::from_ucs2_units(units[..n].iter().copied()),
+        entry_pos: 0,
+        offset_range: (0, 0),
+        fs: &fs,
+    };
+    #[cfg(feature = "alloc")]
+    {
+        let s = e.short_file_name();
+        assert!(s.chars().count() <= 12);
+        let name = e.file_name();
+        let c = name.chars().count();
+        if with_lfn {
+            assert!(c == 2);
+        } else {
+            assert!(c <= 12);
+        }
+        core::mem::forget(s);
+        core::mem::forget(name);
+    }
+    kani::cover!(with_lfn && units[0] == 0xD800);
+    core::mem::forget(e);
+    core::mem::forget(fs);
 }
 
 // ---- C15: an accepted name is stored losslessly (write path -> read path), per character position ----
